@@ -91,36 +91,69 @@ def build_theory(quiet=False):
     files = sorted(f for f in os.listdir(COQ_THEORY) if f.endswith('.v'))
     with open(os.path.join(coqdir, '_CoqProject'), 'w') as f:
         f.write('-Q theory LT\n' + ''.join('theory/%s\n' % x for x in files))
-    r = subprocess.run('coq_makefile -f _CoqProject -o Makefile && timeout 1500 make -j%d' % NCPU,
+    r = subprocess.run('coq_makefile -f _CoqProject -o Makefile && timeout 1500 make -k -j%d' % NCPU,
                        shell=True, cwd=coqdir, stdout=subprocess.PIPE, stderr=subprocess.STDOUT, text=True)
     if not quiet or r.returncode != 0:
         sys.stdout.write(re.sub(r'(?m)^.*Warning:.*\n|^\[.*\]\n', '', r.stdout)[-4000:])
     return r.returncode == 0
 
 
-def ensure_theory():
-    """(re)build coq/theory if needed; serialised by a file lock so that
-    concurrently running checks do not race on make"""
+def _deps_closure(names):
+    """transitive closure of LT.* dependencies of the given theory files"""
+    seen = []
+    todo = list(names)
+    while todo:
+        n = todo.pop()
+        if n in seen:
+            continue
+        p = os.path.join(COQ_THEORY, n + '.v')
+        if not os.path.exists(p):
+            continue
+        seen.append(n)
+        for m in re.finditer(r'\bLT\.([A-Za-z0-9_]+)', open(p).read()):
+            todo.append(m.group(1))
+    return seen
+
+
+def _stale(names):
+    for n in names:
+        v = os.path.join(COQ_THEORY, n + '.v')
+        vo = v + 'o'
+        if not os.path.exists(vo) or os.path.getmtime(vo) < os.path.getmtime(v):
+            return True
+    return False
+
+
+def ensure_theory(needed=None):
+    """make sure the theory files a check needs (and their dependencies) are
+    compiled and up to date; builds only those targets, serialised by a file
+    lock so that concurrently running checks do not race on make.  Other
+    theory files (possibly under construction) are not touched."""
     import fcntl
+    if needed is None:
+        needed = [f[:-2] for f in os.listdir(COQ_THEORY) if f.endswith('.v')]
+        strict = False
+    else:
+        strict = True
+    names = _deps_closure(needed)
+    if not _stale(names):
+        return
     os.makedirs(os.path.join(VERIF, '.work'), exist_ok=True)
     with open(os.path.join(VERIF, '.work', 'theory.lock'), 'w') as lk:
         fcntl.flock(lk, fcntl.LOCK_EX)
-        _ensure_theory()
-
-
-def _ensure_theory():
-    if not theory_built():
-        if not build_theory(quiet=True):
-            raise RuntimeError('theory build failed')
-    else:
-        # rebuild if any .v is newer than its .vo
-        for f in os.listdir(COQ_THEORY):
-            if f.endswith('.v'):
-                vo = os.path.join(COQ_THEORY, f + 'o')
-                if not os.path.exists(vo) or os.path.getmtime(vo) < os.path.getmtime(os.path.join(COQ_THEORY, f)):
-                    if not build_theory(quiet=True):
-                        raise RuntimeError('theory build failed')
-                    break
+        if not _stale(names):
+            return
+        coqdir = os.path.join(VERIF, 'coq')
+        files = sorted(f for f in os.listdir(COQ_THEORY) if f.endswith('.v'))
+        with open(os.path.join(coqdir, '_CoqProject'), 'w') as f:
+            f.write('-Q theory LT\n' + ''.join('theory/%s\n' % x for x in files))
+        targets = ' '.join('theory/%s.vo' % n for n in names)
+        r = subprocess.run('coq_makefile -f _CoqProject -o Makefile && timeout 1500 make -k -j%d %s' % (NCPU, targets),
+                           shell=True, cwd=coqdir, stdout=subprocess.PIPE, stderr=subprocess.STDOUT, text=True)
+        if _stale(names) and strict:
+            raise RuntimeError('theory build failed:\n' + r.stdout[-1500:])
+        if _stale(['FieldSec']):
+            raise RuntimeError('theory build failed:\n' + r.stdout[-1500:])
 
 
 def run_impl(script, cases, nproc=None, hashseeds=None, timeout=1800):
